@@ -60,3 +60,48 @@ benign("c17-benign-reorder-conjuncts", "C17", OPT, "        target_precision >= 
        "        target_min_exponent <= source_min_exponent\n        and target_precision >= source_precision\n")
 benign("c17-benign-flip-compare", "C17", OPT, "        return target_signed and target_bits >= source_bits", "        return target_signed and source_bits <= target_bits")
 benign("c17-benign-conservative-double", "C17", OPT, "ir.DataType.DOUBLE: (53, -1074, 1023)", "ir.DataType.DOUBLE: (53, -1074, 1023 + 0)")
+
+# ----------------------------------------------------------------------------- C13
+PS = "jax2onnx/plugins/plugin_system.py"
+mutant("c13-revert-fix-loop-before-try", "C13", PS,
+       """    try:
+        for patch_fn, targets, attr in _iter_patch_specs():
+            for tgt in targets:
+                key = (tgt, attr)
+                st = _PATCH_STATE.get(key)
+                if st is None:
+                    orig = getattr(tgt, attr)
+                    new = patch_fn(orig)
+                    setattr(tgt, attr, new)
+                    _PATCH_STATE[key] = {"orig": orig, "count": 1}
+                else:
+                    st["count"] += 1
+                touched.append(key)
+        yield
+""",
+       """    for patch_fn, targets, attr in _iter_patch_specs():
+        for tgt in targets:
+            key = (tgt, attr)
+            st = _PATCH_STATE.get(key)
+            if st is None:
+                orig = getattr(tgt, attr)
+                new = patch_fn(orig)
+                setattr(tgt, attr, new)
+                _PATCH_STATE[key] = {"orig": orig, "count": 1}
+            else:
+                st["count"] += 1
+            touched.append(key)
+    try:
+        yield
+""", expect="apply_monkey_patches")
+mutant("c13-x64-restore-removed", "C13", "jax2onnx/converter/conversion_api.py",
+       '    finally:\n        if previous != target:\n            jax.config.update("jax_enable_x64", previous)', "    finally:\n        pass", expect="jax_enable_x64")
+mutant("c13-restore-forward-order", "C13", "jax2onnx/plugins/_patching.py", "for tgt, attr, orig in reversed(applied):", "for tgt, attr, orig in applied:", expect="restore-order")
+mutant("c13-function-build-flag-not-reset", "C13", PS, "            finally:\n                _IN_FUNCTION_BUILD.set(active)", "            finally:\n                pass", expect="_IN_FUNCTION_BUILD")
+mutant("c13-module-level-library-write", "C13", "jax2onnx/plugins/jax/numpy/abs.py", "import jax.numpy as jnp\n", "import jax.numpy as jnp\n\njnp.fabs_compat = jnp.abs\n", expect="jnp.fabs_compat")
+mutant("c13-binding-entered-manually", "C13", PS, "        with apply_patches(cls.binding_specs()):\n            yield", "        cm = apply_patches(cls.binding_specs())\n        cm.__enter__()\n        yield", expect="apply_patches")
+mutant("c13-statement-between-mutation-and-try", "C13", "jax2onnx/plugins/flax/test_utils.py", "    jnp.shape = orig_shape\n    try:", "    jnp.shape = orig_shape\n    get_orig_impl(JnpShapePlugin._PRIM, JnpShapePlugin._FUNC_NAME)\n    try:", expect="jnp.shape")
+mutant("c13-temporary-x64-finally-dropped", "C13", "jax2onnx/user_interface.py", '    finally:\n        if jax.config.jax_enable_x64 != prev:\n            jax.config.update("jax_enable_x64", prev)', "    finally:\n        pass", expect="jax_enable_x64")
+mutant("c13-overwrite-jax-batcher", "C13", "jax2onnx/plugins/jax/numpy/cumsum.py", "batching.primitive_batchers[JnpCumSumPlugin._PRIM] = _cumsum_batch_rule", "batching.primitive_batchers[JnpCumSumPlugin._PRIM] = _cumsum_batch_rule\nbatching.primitive_batchers[jax.lax.cumsum_p] = _cumsum_batch_rule", expect="library registry")
+benign("c13-benign-flip-compare", "C13", "jax2onnx/converter/conversion_api.py", "    if previous != target:\n        jax.config.update(\"jax_enable_x64\", target)\n    try:", "    if target != previous:\n        jax.config.update(\"jax_enable_x64\", target)\n    try:")
+benign("c13-benign-rename-applied", "C13", "jax2onnx/plugins/_patching.py", "applied", "done_list", count=99)
